@@ -19,6 +19,11 @@ CLAIMED = {
   design_ref="DESIGN.md §3 C07",
   note="Kernel short reads are not injected (the property quantifies over contents and histories); strings.Reader defines 'the same bytes in memory'.",
   technique="deterministic simulation: seeded seek/read histories on a simulated-world file vs byte-slice reference model; file-vs-memory differential"),
+ "C06": dict(
+  text="Seeded search over scratch worlds (1-4 files, stale .vored, duplicates in the list, empty and window-sized files) and histories of 1-6 RunFiles ops in modes NOTHING/NEW/OVERWRITE, checked after every op against an in-memory file-system model advanced by a reference splice, plus a write-set rule over the op's logged file-system calls (catches write-then-restore and identical rewrites that a snapshot cannot see). Exploration.",
+  design_ref="DESIGN.md §3 C06",
+  note="Match lists for the reference splice come from the code's own Run on the model content (C07/C13 checked separately); files.Writer writes are observed at open time; cross-file order of the returned list is not asserted.",
+  technique="deterministic simulation: seeded op histories on a simulated-world disk vs in-memory FS reference model + syscall-trace write-set invariant"),
 }
 
 NA = {
